@@ -216,6 +216,10 @@ def run_case_sync(case, res):
                 for method, mr, cap in method_params(case):
                     b = rb.oid_str(base)
                     for attempt in range(2):
+                        if case.get("refused_first"):
+                            # a request too large for the message buffer is refused locally (nothing reaches the agent) - the walk
+                            # that follows, on this session and on others, is as complete as any
+                            drivers.call(s.get_many, ["1.3"] * 700)
                         tr.arm(mib, cap, base)
                         if method == "getnext":
                             out = drivers.call(lambda: list(s.getnext(b)))
@@ -246,6 +250,11 @@ def run_case_async(case, res):
                 for method, mr, cap in method_params(case):
                     b = rb.oid_str(base)
                     for attempt in range(2):
+                        if case.get("refused_first"):
+                            try:
+                                await s.get_many(["1.3"] * 700)
+                            except Exception:  # noqa: BLE001
+                                pass
                         tr.arm(mib, cap, base)
                         try:
                             if method == "getnext":
@@ -442,6 +451,25 @@ def gen_cases(tier):
             "maxreps": [254, 255, 256, 257, 280, 300, 1000],
             "caps": [255, 256, 280],
         }
+    # walks that follow a locally refused (over-sized) request
+    full_ = (1 << len(QUICK_IDX)) - 1
+    for driver in ("sync", "async"):
+        for cfg in (Cfg("v1"), Cfg("v2c"), Cfg("v3", auth=2, priv=2)):
+            for method in ("getnext", "fetch", "getbulk"):
+                if cfg.version == "v1" and method == "getbulk":
+                    continue
+                yield {
+                    "driver": driver,
+                    "cfg": cfg.describe(),
+                    "idx": QUICK_IDX,
+                    "mask_lo": full_ - 3,
+                    "mask_hi": full_ + 1,
+                    "bases": [list(b) for b in BASES[:4]],
+                    "method": method,
+                    "maxreps": [2, 10],
+                    "caps": [None, 3],
+                    "refused_first": True,
+                }
     # every max_repetitions value across the INTEGER width boundaries, on a full MIB
     mrs = list(range(1, 301)) + [32767, 32768, 65535, 65536, 8388607, 8388608, 2**31 - 1]
     if thorough:
